@@ -3,6 +3,7 @@ import Cppcms.C01.FcgiProofs
 import Cppcms.C01.HttpProofs3
 import Cppcms.C01.ScgiRoundtrip
 import Cppcms.C01.FcgiRoundtrip
+import Cppcms.C01.HttpRoundtrip
 /-!
 # C01 — property theorems
 
@@ -116,6 +117,29 @@ example : WFFcgi [{ name := [67, 79, 78, 84, 69, 78, 84, 95, 76, 69, 78, 71, 84,
       stdin := [⟨[97], 1⟩, ⟨[98, 99], 0⟩] } :=
   ⟨by decide, by decide, by decide, by decide, by decide, by decide, by unfold WFPieces; decide, by decide,
    by unfold WFPieces; decide, by decide, by decide⟩
+
+/-- **HTTP header lines round trip** (over the *generated* `parser::step()`): plain header lines (no CR, quote
+or comment character, not starting with a blank) written by the peer as `line CRLF … CRLF` reach the
+per-header code of `some_headers_data_read` (`httpGotHeader`: request-line split / `parse_single_header`)
+unchanged, one by one and in order (`feedLines`); after the empty line `process_request` runs and the body
+is left unread in the buffer.  Together with `http_buffer_eq_stream` this holds for every segmentation.
+PARTIAL with respect to DESIGN's `http_roundtrip`: folded/quoted headers and the inverse of
+`parse_single_header`/`process_request` (canonical names, percent-decoding) are not part of this theorem. -/
+theorem http_header_lines_roundtrip (cfg : HttpCfg) (ls : List Bytes) (r r' : HttpReq) (body : Bytes)
+    (hw : ∀ l ∈ ls, PlainLine l) (hs : r.ps.state = Gen.ps_idle) (hu : r.ps.under = false) (hg : r.ps.unget = false)
+    (hf : feedLines r ls = some r') :
+    hdrFlat cfg r (encLines ls ++ body) =
+      (match httpProcess cfg { r' with ps := { r'.ps with state := Gen.ps_last_lf_exptected, rhdr := [] } } with
+       | none => (.done .raw400, body)
+       | some h => (.head h r'.is11, body)) := by
+  unfold hdrFlat
+  rw [hdrLoopC_lines cfg ls r r' body hw hs hu hg hf]
+  cases httpProcess cfg { r' with ps := { r'.ps with state := Gen.ps_last_lf_exptected, rhdr := [] } } with
+  | none => rfl
+  | some h => rfl
+
+/-- non-vacuity of `PlainLine`: `GET / H` -/
+example : PlainLine [71, 69, 84, 32, 47, 32, 72] := ⟨by decide, by decide, by decide⟩
 
 /-- non-vacuity: different segmentations of the same stream exist -/
 example : ([[1, 2], [3]] : Segs).flatten = ([[1], [], [2, 3]] : Segs).flatten := by decide
